@@ -27,6 +27,11 @@ pub fn spec() -> Spec {
 fn pick_target(rng: &mut crate::rng::Rng, h: i64, m: i64) -> u64 {
     // bias to the window edges relative to m (highest ever) and h (current)
     let cands: Vec<i64> = vec![h + 1, h, h - 1, h - 2, h - 3, h - 5, h - 9, h - 10, h - 11, h - 12, m - 9, m - 10, m - 11, m - 12, 0, 1];
+    // after an earlier reorg the highest block ever finalised is above the height: the two edges of
+    // the window are then different places, and the one relative to the highest block decides
+    if m > h && rng.chance(1, 2) {
+        return (*rng.pick(&[m - 10, m - 11])).max(0) as u64;
+    }
     let c = *rng.pick(&cands);
     c.max(0) as u64
 }
